@@ -17,14 +17,14 @@ pub fn def() -> PropDef {
         run_unit,
         replay,
         required_probes: &["Inv_GuessF64", "Inv_GuessFallback", "WithPrec_Round", "WithPrec_TermApplied"],
-        rule: "seeded non-zero decimals of 1..1500 digits, scales -2000..2000, both signs, with dedicated families: 2^i 5^j (i <= 60, j <= 30; also long powers of five) at precisions equal to / one below / one above the exact length of the reciprocal, 99..9 and 100..01 (reciprocal just above / below a power of ten), integers with exactly 1070..1080 bits and > 1100 bits (the f64 initial guess underflows), small integers; p in 1..150 weighted to 1..5 and 100; 7 modes; inverse_with_context on x and on -x under the mirrored mode, inverse() and `1 / x` for every primitive integer type and f32/f64. Four separate monitors: sign, |r - 1/x| < one unit of the p-th digit of 1/x (integer inequality), exactness when 1/x has <= p digits, mirror identity; the Newton loop reports its iteration count to a loop guard (termination as bounded progress). distinct = distinct (x, p, mode); non-trivial = 1/x is not representable in p digits",
+        rule: "exhaustive small scope: every |n| in 1..2000, both signs x scales -2..2 x p 1..4 x 7 modes; then seeded non-zero decimals of 1..1500 digits, scales -2000..2000, both signs, with dedicated families: 2^i 5^j (i <= 60, j <= 30; also long powers of five) at precisions equal to / one below / one above the exact length of the reciprocal, 99..9 and 100..01 (reciprocal just above / below a power of ten), integers with exactly 1070..1080 bits and > 1100 bits (the f64 initial guess underflows), small integers; p in 1..150 weighted to 1..5 and 100; 7 modes; inverse_with_context on x and on -x under the mirrored mode, inverse() and `1 / x` for every primitive integer type and f32/f64. Four separate monitors: sign, |r - 1/x| < one unit of the p-th digit of 1/x (integer inequality), exactness when 1/x has <= p digits, mirror identity; the Newton loop reports its iteration count to a loop guard (termination as bounded progress). distinct = distinct (x, p, mode); non-trivial = 1/x is not representable in p digits",
     }
 }
 
 fn plan(tier: Tier) -> Vec<Unit> {
     match tier {
-        Tier::Quick => crate::util::split_budget("recip", 120_000, 1_000),
-        Tier::Thorough => crate::util::split_budget("recip", 9_000_000, 5_000),
+        Tier::Quick => { let mut v = crate::util::split_budget("recip", 120_000, 1_000); v.extend(crate::util::split_budget("small", 2_000, 40)); v }
+        Tier::Thorough => { let mut v = crate::util::split_budget("recip", 9_000_000, 5_000); v.extend(crate::util::split_budget("small", 2_000, 20)); v }
         Tier::Miri => crate::util::split_budget("recip", 4, 2),
     }
 }
@@ -74,6 +74,26 @@ pub fn gen_x(r: &mut Rng, i: u64) -> (Dec, Option<u64>) {
 }
 
 fn run_unit(unit: &Unit, r: &mut Rng, ctx: &mut Ctx) {
+    if unit.kind == "small" {
+        // exhaustive: every n in 1..=2000, both signs x scale -2..=2 x p 1..=4 x 7 modes
+        for idx in unit.start..unit.start + unit.count {
+            let n = idx as i64 + 1;
+            for sg in [1i64, -1] {
+                for s in -2i64..=2 {
+                    for p in 1u64..=4 {
+                        for &mode in MODES.iter() {
+                            let case = Case::new("inverse").push(Dec::new(BigInt::from(sg * n), s).tok()).push(p).push(mode_name(mode)).push((idx + p) % 12);
+                            check_case(&case, ctx);
+                        }
+                    }
+                }
+            }
+        }
+        if unit.start == 0 {
+            ctx.exhaustive_notes.push("C12 small scope: every |n| in 1..2000, both signs x scales -2..2 x p 1..4 x 7 modes (560 000 cases)".into());
+        }
+        return;
+    }
     for i in 0..unit.count {
         let (mut x, ps) = gen_x(r, unit.start + i);
         if r.bool() { x = x.neg(); }
